@@ -95,7 +95,26 @@ thread_local! {
     static LAST_PANIC: RefCell<Option<String>> = const { RefCell::new(None) };
 }
 
+/// A logger that formats and discards every record at the command line's default level (warn): the code that builds
+/// the diagnostics runs in every real invocation, so it must run under the monitors too.
+struct SinkLogger;
+impl log::Log for SinkLogger {
+    fn enabled(&self, m: &log::Metadata) -> bool {
+        m.level() <= log::Level::Warn
+    }
+    fn log(&self, r: &log::Record) {
+        if self.enabled(r.metadata()) {
+            let _ = std::hint::black_box(format!("{}", r.args()));
+        }
+    }
+    fn flush(&self) {}
+}
+static SINK_LOGGER: SinkLogger = SinkLogger;
+
 pub fn install_panic_hook() {
+    if log::set_logger(&SINK_LOGGER).is_ok() {
+        log::set_max_level(log::LevelFilter::Warn);
+    }
     std::panic::set_hook(Box::new(|info| {
         let loc = info
             .location()
